@@ -19,7 +19,7 @@ def main():
     P = ['C06', 'CRASH', 'C12']
     ck.bounds = dict(candset='1..3 rows (4 thorough) over 2x2 tables, duplicate index labels included',
                      overlap='cells <= 3 tokens, overlap_size 1..3, operators >=,>,=')
-    ck.e2('candset-any-filter', h_cand.make(dict(mode='candset', nl=2, nr=2, ncand=[1, 2, 3] if quick else [2, 3, 4],
+    ck.e2('candset-any-filter', h_cand.make(dict(mode='candset', nl=2, nr=2, ncand=[1, 2, 3] if quick else [3, 4], 
                                                  missing='sym', allow_missing=[False, True], n_jobs=[1, 2, 3],
                                                  extra_col=[False, True], cand_index=[None, [7, 7, 3, 3]],
                                                  props=P)))
@@ -34,7 +34,7 @@ def main():
                                            thresholds=[1, 2, 3], comp_ops=ops, nonempty='sym', missing='sym',
                                            allow_missing=[False, True], props=['C06', 'C08', 'CRASH'])))
     ck.e2('overlap-tables-core', h_core.make(dict(entry='filter_split', filter='OverlapFilter', measure='OVERLAP',
-                                                  nl=1 if quick else 2, nr=2, k=3, kmin=0, thresholds=[1, 2, 3], comp_ops=ops,
+                                                  nl=1 if quick else 2, nr=2, k=3 if quick else 2, kmin=0, thresholds=[1, 2, 3], comp_ops=ops,
                                                   out_sim_score=[True, False], props=['C06', 'C01', 'C02', 'CRASH'])))
     ck.e2('overlap-tables-api', h_join.make(stages.filter_cfg(
         'OverlapFilter', nl=2, nr=2, k=1, kmin=0, comp_ops=ops, thresholds=[1], out_sim_score=[True, False],
